@@ -94,6 +94,7 @@ type sysRemote struct {
 	KeepWait      func(ctx context.Context, tag int, cb cbI) (int, error)         // keeps the callable and stays in flight until its gate opens
 	RelayCb       func(ctx context.Context, tag int, kept int) (int, error)       // invokes the callable kept under `kept` (another link's) with THIS request's context
 	EnumPanic     func(ctx context.Context, tag int) error                        // enumerates the remotes and panics inside the enumeration callback
+	IterNilCtx    func(ctx context.Context, tag int, cb cbI) (string, error)      // invokes the callable from two goroutines at once, both with a nil context
 	GateFail      func(ctx context.Context, tag int, msg string) error            // waits for its gate, then returns an ordinary error
 	FailOwn       func(ctx context.Context, tag int, code int) error              // the handler's only result has an interface type of its own that embeds error
 	CallBackIter  func(ctx context.Context, tag int) (string, error)              // calls the peer back passing a function, returns what the peer's iteration yields
@@ -475,6 +476,25 @@ func (l *sysLocal) Spawn(ctx context.Context, tag int) (int, error) {
 	// return only once the spawned call is really in flight (its handler on the peer has started and is stalled)
 	waitUntil(func() bool { return hasInv(l.w, "Gate", tag+1) }, time.Second)
 	return tag, nil
+}
+func (l *sysLocal) IterNilCtx(ctx context.Context, tag int, cb cbI) (string, error) {
+	l.inv(ctx, "IterNilCtx", tag, nil)
+	var wg sync.WaitGroup
+	start := make(chan struct{})
+	out := make([]string, 2)
+	for i := 0; i < 2; i++ {
+		wg.Add(1)
+		go func() {
+			defer wg.Done()
+			<-start
+			var nilCtx context.Context
+			v, err := cb(nilCtx, i)
+			out[i] = fmt.Sprintf("%d/%s", v, errText(err))
+		}()
+	}
+	close(start)
+	wg.Wait()
+	return strings.Join(out, ";"), nil
 }
 func (l *sysLocal) GateFail(ctx context.Context, tag int, msg string) error {
 	l.inv(ctx, "GateFail", tag, msg)
